@@ -105,6 +105,7 @@ def run(ctx):
            "the table-header row-count shortcut does not look at the aggregate's %s: COUNT(column) is answered with the number of rows, NULLs included"
            % ("argument" if not reads_arg else "DISTINCT flag"), h.loc())
     group_key_positional(ctx)
+    unique_is_not_notnull(ctx)
 
 
 def _fields_in(s):
@@ -168,3 +169,38 @@ def group_key_positional(ctx):
         ctx.ob("G6.GROUP-KEY-POSITIONAL", name.rsplit("::", 1)[-1], ok, "every value read is encoded into the key (NULL has its own prefix)" if ok else
                "%s: %s — rows whose NULLs sit in different grouping columns fall into one group" % (name.rsplit("::", 1)[-1], why), f.loc())
     ctx.floor("G6.group_key_builders", n, 1)
+
+
+def unique_is_not_notnull(ctx):
+    """G7 UNIQUE≠NOT-NULL: the row-count shortcut (and anything it calls) may reason "this column can never be NULL" only from NOT NULL /
+    PRIMARY KEY.  A UNIQUE column is nullable (several NULLs are accepted), so a match on schema::table::Constraint that sends the
+    Unique arm where the NotNull arm goes, inside the shortcut's call closure, answers COUNT(col) with the NULLs included."""
+    m = ctx.m
+    root = [f for f in m.fns.values() if f.kind != "closure" and f.id.endswith("query::helpers::is_simple_count_star")][0]
+    seen, st = set(), [root.key]
+    while st:
+        k = st.pop()
+        if k in seen or k not in m.fns:
+            continue
+        seen.add(k)
+        f = m.fns[k]
+        for c in f.calls:
+            if c.name in m.fns and (c.name.startswith("database::query::") or c.name.startswith(f.id.rsplit("::", 1)[0])):
+                st.append(c.name)
+        for g in m.fns.values():
+            if g.kind == "closure" and g.id.startswith(f.id + "::{closure"):
+                st.append(g.key)
+    bad = None
+    n = 0
+    for k in seen:
+        f = m.fns[k]
+        for bb, arms, other in codec.enum_switches(f, "schema::table::Constraint", m):
+            n += 1
+            nn = arms.get("NotNull", other)
+            un = arms.get("Unique", other)
+            if "NotNull" in arms and un == nn:
+                bad = f
+    ctx.stat("G7.constraint_matches_in_shortcut", n)
+    ctx.ob("G7.UNIQUE-IS-NOT-NOT-NULL", "is_simple_count_star", bad is None, "the shortcut never equates UNIQUE with NOT NULL" if bad is None else
+           "%s treats Constraint::Unique like Constraint::NotNull while deciding whether COUNT(col) may be answered from the table's row count: "
+           "a nullable UNIQUE column is counted with its NULLs" % bad.id.rsplit("::", 1)[-1], (bad or root).loc())
